@@ -184,6 +184,70 @@ def overflow_sites(ctx, facts=None):
                 yield b, bb, t["msg_ops"][0], t["msg_ops"][1], t["msg_ops"][2]
 
 
+def _sub_cannot_underflow(ctx, b, bb, a, c_):
+    """reason why `a - c_` at the overflow check in bb cannot underflow, or None"""
+    da, dc = b.source_def(a), b.source_def(c_)
+    # capacity() - len() of the same table (hashbrown: capacity >= len)
+    if da is not None and dc is not None and da[1] == "call" and dc[1] == "call":
+        ca, cc = ctx.call_at(b, da[0].bb), ctx.call_at(b, dc[0].bb)
+        if ca.method == "capacity" and cc.method == "len" and ca.arg_path(0) is not None and cc.arg_path(0) is not None \
+                and ca.arg_path(0).strip_refs().key() == cc.arg_path(0).strip_refs().key():
+            return "capacity() - len() of one table"
+    # (x + c1) - c2 with constants c1 >= c2 (x unsigned): the addition's own check covers the rest
+    k2 = b.op_const(c_)
+    k1_ = b.op_const(a)
+    if k2 is not None and k1_ is not None and k1_ >= k2:
+        return "%d - %d" % (k1_, k2)
+    if k2 is not None and a["k"] in ("copy", "move"):
+        pl = a["place"]
+        d = b.unique_def(pl["local"])
+        hops = 0
+        while d is not None and d[1] == "assign" and d[2]["rv"]["k"] == "use" and d[2]["rv"]["op"]["k"] in ("copy", "move") and hops < 4:
+            d = b.unique_def(d[2]["rv"]["op"]["place"]["local"])      # through `_x = move (_y.0)` of the checked addition's result pair
+            hops += 1
+        if d is not None and d[1] == "assign" and d[2]["rv"]["k"] == "binop" and d[2]["rv"]["op"].startswith("Add"):
+            for x in (d[2]["rv"]["a"], d[2]["rv"]["b"]):
+                k1 = b.op_const(x)
+                if k1 is not None and k1 >= k2:
+                    return "(x + %d) - %d" % (k1, k2)
+    # guarded: the block is dominated by the true edge of `a >= c` / `a > c` (or the false edge of `a < c` / `a <= c`)
+    pa, pc = (b.op_path(a) if a["k"] != "const" else None), (b.op_path(c_) if c_["k"] != "const" else None)
+    for x in b.reachable():
+        t = b.term(x)
+        if t["k"] != "switch":
+            continue
+        d = b.source_def(t["discr"])
+        if d is None or d[1] != "assign" or d[2]["rv"]["k"] != "binop" or d[2]["rv"]["op"] not in ("Ge", "Gt", "Le", "Lt", "Ne", "Eq"):
+            continue
+        rv = d[2]["rv"]
+        la, lb = (b.op_path(rv["a"]) if rv["a"]["k"] != "const" else None), (b.op_path(rv["b"]) if rv["b"]["k"] != "const" else None)
+        ka, kb = b.op_const(rv["a"]), b.op_const(rv["b"])
+
+        def same(p, q):
+            return p is not None and q is not None and p.key() == q.key()
+        true_edge = (x, t["otherwise"])
+        false_edges = [(x, tb) for v, tb in t["targets"] if v == 0]
+        good = None
+        if same(la, pa):
+            vs_operand = same(lb, pc)
+            # with constants: what the edge tells about `a` must be at least k2
+            if rv["op"] == "Ge" and (vs_operand or (kb is not None and k2 is not None and kb >= k2)):
+                good = true_edge
+            elif rv["op"] == "Gt" and (vs_operand or (kb is not None and k2 is not None and kb + 1 >= k2)):
+                good = true_edge
+            elif rv["op"] == "Lt" and false_edges and (vs_operand or (kb is not None and k2 is not None and kb >= k2)):
+                good = false_edges[0]
+            elif rv["op"] == "Le" and false_edges and (kb is not None and k2 is not None and kb + 1 >= k2):
+                good = false_edges[0]
+            elif rv["op"] == "Ne" and kb == 0 and k2 == 1:
+                good = true_edge                   # a != 0  ==>  a - 1 is fine
+            elif rv["op"] == "Eq" and kb == 0 and k2 == 1 and false_edges:
+                good = false_edges[0]
+        if good is not None and (good[1] == bb or good[1] in b.dom().get(bb, set())) and b.preds(good[1], True) == [good[0]]:
+            return "guarded by the comparison at %s" % b.where(Loc(x, len(b.stmts(x))))
+    return None
+
+
 def rule_o_wrap(ctx):
     R = RuleResult("O-wrap", "no size supplied by the caller (public usize parameter) or by user code (size_hint of a user iterator) reaches "
                    "+, -, * that panics with overflow checks on and wraps silently with them off")
@@ -205,6 +269,17 @@ def rule_o_wrap(ctx):
             amt = b.op_const(c_)
             if amt is not None and 0 <= amt < 64:
                 tb = None
+        if op == "Sub" and not (ta or tb):
+            why_safe = _sub_cannot_underflow(ctx, b, bb, a, c_)
+            if why_safe is None:
+                R.inst(fn=b.path, site=b.where(loc), expr=desc, verdict="VIOLATION")
+                R.viol("%s:%s:underflow" % (b.path, desc), b.where(loc),
+                       "%s in %s: nothing shows that the left operand is at least the right one (accepted: capacity() - len() of one table, (x + c1) - c2 with "
+                       "constants c1 >= c2, a subtraction guarded by a comparison of its operands); with overflow checks this panics, without them it wraps"
+                       % (desc, b.path))
+                continue
+            R.inst(fn=b.path, site=b.where(loc), expr=desc, verdict="cannot underflow: " + why_safe)
+            continue
         if ta or tb:
             R.inst(fn=b.path, site=b.where(loc), expr=desc, tainted_by=ta or tb, verdict="VIOLATION")
             R.viol("%s:%s" % (b.path, desc), b.where(loc),
